@@ -1022,8 +1022,16 @@ impl SignedDuration {
         self,
         rhs: SignedDuration,
     ) -> Option<SignedDuration> {
-        let Some(rhs) = rhs.checked_neg() else { return None };
-        self.checked_add(rhs)
+        // Negating `rhs` and adding would wrongly report overflow when
+        // `rhs`'s seconds are `i64::MIN` but the difference is representable,
+        // so the difference is computed exactly. It cannot overflow an i128.
+        let nanos = self.as_nanos() - rhs.as_nanos();
+        let secs = nanos / (NANOS_PER_SEC as i128);
+        if secs < (i64::MIN as i128) || secs > (i64::MAX as i128) {
+            return None;
+        }
+        let nanos = (nanos % (NANOS_PER_SEC as i128)) as i32;
+        Some(SignedDuration::new_unchecked(secs as i64, nanos))
     }
 
     /// Add two signed durations together. If overflow occurs, then arithmetic
